@@ -70,7 +70,7 @@ func runWorld(t *rapid.T, prop string) {
 		gen.TwoFaced = true
 		gen.MinPathLen = 1
 	}
-	if profile == "gate" || profile == "laggard" || profile == "hijack" || profile == "rotlag" {
+	if profile == "gate" || profile == "laggard" || profile == "hijack" || profile == "rotlag" || profile == "rules" {
 		// the gate schedule splits proposals best when the inputs themselves agree
 		gen.MinPathLen = 1
 		gen.Unanimous = rapid.Bool().Draw(t, "gateunanimous")
